@@ -39,7 +39,9 @@ pub fn gen(tier: &str, seed: u64, out: &mut dyn Write) {
                 let rich = rng.below(32) as u32;
                 let load = rng.below(2) as u32;
                 let stores = rng.below(3) as u32;
-                let e = match rng.below(4) {
+                let e = match rng.below(6) {
+                    4 => "fe.3,ge,lc.6672657368",
+                    5 => "ke,le,cl.7075626c69632e64656661756c74,ll.7075626c69632e64656661756c74",
                     0 => "di.6e2f652f772e747874.w1,gi.7a7a,ii.6e65772e706e67.p",
                     1 => "nl.6578747261,gi.415f62,lk,di.612e747874.w2",
                     2 => "gr.61,dr.612e747874,ir.69312e706e67,dg.7a",
@@ -54,6 +56,42 @@ pub fn gen(tier: &str, seed: u64, out: &mut dyn Write) {
                 let rich = rng.below(32) as u32;
                 let load = if (craft >= 5 && craft <= 7) || craft >= 10 { 1 } else { rng.below(2) as u32 };
                 emit(out, &scratch, &format!("rich={} load={} stores=1 sabot=0 kinds=0 pre={} craft={} e=", rich, load, pre, craft));
+            }
+        }
+    }
+    // round-2 blind spots: a symlinked target; blank-only feature text; empty-but-present containers; empty layers
+    // with layer info
+    for _ in 0..6 {
+        for load in 0..2 {
+            emit(out, &scratch, &format!("rich={} load={} stores={} sabot=0 kinds=0 pre=6 craft=0 e=", rng.below(32), load, rng.below(3)));
+        }
+    }
+    for n in 0..6 {
+        for load in 0..2 {
+            // rich without bit 4 (no feature text of its own)
+            emit(out, &scratch, &format!("rich={} load={} stores=0 sabot=0 kinds=0 pre={} craft=0 e=fe.{}", rng.below(32) & !4, load, [0u32, 2][n % 2], n));
+        }
+    }
+    for e in ["ge", "ke", "le", "ge,ke,le"] {
+        for load in 0..2 {
+            // rich without groups (bit 2), kerning (bit 4), lib (bit 1) of their own
+            emit(out, &scratch, &format!("rich={} load={} stores=0 sabot=0 kinds=0 pre=2 craft=0 e={}", rng.below(32) & !7, load, e));
+        }
+    }
+    let pd = hexs("public.default");
+    let fr = hexs("fresh");
+    let bg = hexs("background");
+    for e in [
+        format!("lc.{}", fr),
+        format!("ll.{}", fr),
+        format!("cl.{},ll.{}", pd, pd),
+        format!("cl.{},lc.{}", pd, pd),
+        format!("cl.{},lc.{}", bg, bg),
+        format!("lc.{},ll.{},cl.{}", bg, bg, bg),
+    ] {
+        for load in 0..2 {
+            for rich in [0u32, 31] {
+                emit(out, &scratch, &format!("rich={} load={} stores=0 sabot=0 kinds=0 pre={} craft=0 e={}", rich, load, 2 * load, e));
             }
         }
     }
